@@ -78,7 +78,11 @@ def plan(tier, ctx):
                         for fl in (0, 1):
                             for wrap in ((0, 1, 3) if oc > 1 else (0, 3)):
                                 for cl in itertools.product(D.STATIC_LIT_CLASSES, repeat=n):
-                                    if n == 3 and wrap == 3 and (cl.count(8) not in (0, 3)) and oc not in (1, 8):
+                                    if n == 3 and wrap == 3 and ((cl.count(8) not in (0, 3)) or oc not in (1, 8, 64)):
+                                        continue
+                                    if n == 3 and wrap == 0 and (eos == 1 or oc in (2, 9)) and cl.count(8) not in (0, 3):
+                                        continue
+                                    if n == 2 and wrap == 1 and oc in (2, 9) and cl.count(8) == 1:
                                         continue
                                     if n == 3 and wrap == 1 and not (oc in (1, 8) and cl.count(8) in (0, 3) and fl == 1):
                                         continue
@@ -107,11 +111,13 @@ def plan(tier, ctx):
                         "output chunk sizes": ocs, "end_of_stream": "with the last chunk / late on an extra empty call",
                         "flush": "NO_FLUSH throughout / SYNC_FLUSH while chunk 1 is fed then NO_FLUSH", "wrappers": "raw, gzip, zlib (+no-hdr variants quick)",
                         "quick": "150 randomly drawn (fixed seed) schedule x size x class-vector tuples + 2 fixed core tuples",
-                        "thorough": "all schedules x chunk sizes x wrappers {raw,gzip,zlib}; all class vectors for n<=2, n=3 all for raw and for output chunks 1 and 8",
+                        "thorough": "all schedules x chunk sizes x wrappers {raw,gzip,zlib}; all class vectors for n<=2 (gzip: not the mixed ones at chunk 2/9); n=3: raw all vectors for chunks 1,7,8,64 with early eos, the two uniform vectors otherwise; zlib uniform vectors at chunks 1,8,64; gzip uniform vectors at chunks 1,8 with flush",
                         "level": 0, "table": "static (fixed Huffman)"},
-                stubs=["wmemset loop", "write_bits class split (see C01)"],
+                stubs=["wmemset: loop; the 4096-wide hash-head initialisation as one array assignment (same values)", "get_lit_code class split (see C01)"],
                 assumptions=["guided decoder script: one fixed block (no flush) or fixed, empty stored, fixed (sync flush after chunk 1)",
-                             "driver repeats a call while avail_in > 0 or (avail_out == 0 and state != ZSTATE_NEW_HDR), as igzip_lib.h describes"],
-                outside=["levels 1-3", "default (dynamic) table in multi-call mode", "decompression side (inflate of split streams): not built, see report",
+                             "driver repeats a call while avail_in > 0 or (avail_out == 0 and state not in {ZSTATE_NEW_HDR, ZSTATE_TMP_NEW_HDR, ZSTATE_END}); the flush flag is dropped at ZSTATE_TMP_NEW_HDR "
+                             "(holding it until NEW_HDR livelocks for 2/3/4/6-byte output buffers: repro_flush_livelock.c)",
+                             "the optional extra {empty fixed block + 00 00 FF FF} pairs and the optional extra empty final block that ISA-L emits are accepted"],
+                outside=["levels 1-3", "default (dynamic) table in multi-call mode except the empty input (family SD)", "decompression side (inflate of split streams): not built, see report",
                          "random long schedules, more than one flush-mode change", "inputs > 3 bytes"],
                 trusted_base=["cbmc 6.11", "spec/rfc1951.h primitives", "harness/deflate_common"])
